@@ -8,11 +8,12 @@ LEDGER_FILES = ['a5/core/cell.py', 'a5/core/coordinate_transforms.py', 'a5/core/
 MUST_ENTER = [('a5/core/cell.py', 'lonlat_to_cell'), ('a5/core/cell.py', '_lonlat_to_estimate'), ('a5/core/cell.py', 'a5cell_contains_point'),
               ('a5/core/cell.py', 'cell_to_boundary'), ('a5/geometry/pentagon.py', 'contains_point'),
               ('a5/core/coordinate_transforms.py', 'to_spherical')]
-CLASSES = ['uniform', 'polar', 'frame', 'antimeridian', 'wide', 'huge', 'hug']
+CLASSES = ['uniform', 'polar', 'frame', 'antimeridian', 'wide', 'huge', 'hug', 'edge', 'seam']
 RULE = ('points (lon, lat, r), r uniform in 0..29, from seven hostile classes: uniform; polar (colatitude log-uniform 1e-12..1e-1 rad + exact '
         'poles); frame (log-scale neighbourhoods of the 62 dodecahedron frame points, also displaced along seams/edges); antimeridian '
         '(+-180 +- 10^u); wide (lon in [-540,540], -0.0, denormals, ints, +-360/720); huge (|lon| up to 1e15, exactly reduced by fmod); '
-        'hug (points t=1e-9..0.3 inside corners/edges of API-discovered cells). Oracle: resolution of the returned id, then sag-aware '
+        'hug (points t=1e-9..0.3 inside corners/edges of API-discovered cells); edge / seam (anywhere along the 30 dodecahedron edges / 120 '
+        'triangle seams, displaced by 1e-12..1e-1 rad or exactly on them); antimeridian also covers the internal azimuth cuts at lon 87 / -93. Oracle: resolution of the returned id, then sag-aware '
         'adaptive gnomonic point-in-ring on cell_to_boundary (refined to 256 segments on demand); 360-degree periodicity for exactly '
         'representable shifts. distinct = distinct (lon, lat, r); non-trivial = r>=2 and the containment margin was decided (in/out), '
         'not within the numerical tolerance band')
